@@ -17,7 +17,8 @@ On the models of C01 (`Model.HpackEnc` encoder, `Model.Hpack` decoder):
   (name, value) of a field written with `Sensitive = false`; `no_later_reference` — whenever a later
   field is encoded as an indexed representation, the referenced entry is a static entry or the pair
   of an earlier NON-sensitive field (a value that entered only through sensitive fields is never
-  referenced); `decoder_table_provenance` the same for the decoder's table on the joint run.
+  referenced); `sensitive_only_never_stored`. (For the decoder's table the per-representation theorems
+  above say the same thing step by step; a separate history-level theorem is not stated.)
 -/
 namespace NetVerif.Proofs.C05
 open NetVerif.Model.Hpack NetVerif.Model.HpackEnc
@@ -234,6 +235,86 @@ theorem decoder_never_indexed_err (d : DecCore) (b : Nat) (p : Bytes) (hb : b / 
       rw [← h.2]
       exact applyAction_literal_err d _ tn un uv d1 e1 hap (by simp [LitKind.it])
     · cases h
+
+/-- What kind of action the first byte allows (inversion of `parseAction`). -/
+theorem parseAction_kind (d : DecCore) (b : Nat) (p : Bytes) (a : Action) (rest : Bytes)
+    (h : parseAction d (b :: p) = .ok (a, rest)) :
+    (∃ e, a = .indexed e) ∨ (∃ s, a = .sizeUpdate s) ∨
+      ∃ it tn un uv, a = .literal it tn un uv ∧ (it = .indexedTrue → b / 64 = 1) := by
+  simp only [parseAction] at h
+  split at h
+  · left
+    simp only [Parser.bind] at h
+    cases hrv : readVarInt 7 (b :: p) with
+    | error e => rw [hrv] at h; cases h
+    | ok ar =>
+      obtain ⟨idx, r⟩ := ar
+      rw [hrv] at h
+      dsimp only at h
+      cases hat : d.at idx with
+      | none => rw [hat] at h; simp [Parser.fail] at h
+      | some en =>
+        rw [hat] at h
+        simp only [Parser.pure, Except.ok.injEq, Prod.mk.injEq] at h
+        exact ⟨en, h.1.symm⟩
+  · split at h
+    · rename_i h64
+      right; right
+      obtain ⟨tn, un, uv, ha⟩ := parseLiteral_shape _ _ _ _ _ _ h
+      exact ⟨_, tn, un, uv, ha, fun _ => h64⟩
+    · split at h
+      · right; right
+        obtain ⟨tn, un, uv, ha⟩ := parseLiteral_shape _ _ _ _ _ _ h
+        exact ⟨_, tn, un, uv, ha, fun hc => by cases hc⟩
+      · split at h
+        · right; right
+          obtain ⟨tn, un, uv, ha⟩ := parseLiteral_shape _ _ _ _ _ _ h
+          exact ⟨_, tn, un, uv, ha, fun hc => by cases hc⟩
+        · split at h
+          · split at h
+            · cases h
+            · right; left
+              simp only [Parser.bind] at h
+              cases hrv : readVarInt 5 (b :: p) with
+              | error e => rw [hrv] at h; cases h
+              | ok ar =>
+                obtain ⟨sz, r⟩ := ar
+                rw [hrv] at h
+                dsimp only at h
+                split at h
+                · simp [Parser.fail] at h
+                · simp only [Parser.pure, Except.ok.injEq, Prod.mk.injEq] at h
+                  exact ⟨sz, h.1.symm⟩
+          · cases h
+
+/-- **Decoder, all states and inputs: only a literal with incremental indexing (`01xxxxxx`) can add
+a table entry**; every other representation leaves the entries a subset of what they were. -/
+theorem decoder_adds_only_incremental (d : DecCore) (b : Nat) (p : Bytes) (d' : DecCore) (rest : Bytes)
+    (em : Option Field) (h : parseRepr d (b :: p) = .ok d' rest em) (hb : ¬ b / 64 = 1) :
+    ∀ x ∈ d'.dyn.ents, x ∈ d.dyn.ents := by
+  unfold parseRepr at h
+  cases hpa : parseAction d (b :: p) with
+  | error e => rw [hpa] at h; cases e <;> simp at h
+  | ok ar =>
+    obtain ⟨a, r⟩ := ar
+    rw [hpa] at h
+    dsimp only at h
+    cases hap : applyAction d a with
+    | err e d1 => rw [hap] at h; cases h
+    | ok d1 em1 =>
+      rw [hap] at h
+      simp only [PRes.ok.injEq] at h
+      rw [← h.1]
+      rcases parseAction_kind d b p a r hpa with ⟨e, rfl⟩ | ⟨sz, rfl⟩ | ⟨it, tn, un, uv, rfl, hit⟩
+      · simp only [applyAction] at hap
+        rw [(finishEmit_ok _ _ _ _ hap).1]
+        exact fun x hx => hx
+      · simp only [applyAction, ApplyRes.ok.injEq] at hap
+        rw [← hap.1]
+        exact fun x hx => (setMaxSize_ents_prefix _ _).subset hx
+      · have := (applyAction_literal_ok d it tn un uv d1 em1 hap).1 (fun hc => hb (hit hc))
+        rw [this]
+        exact fun x hx => hx
 
 /-! ### Encoder and decoder together -/
 
